@@ -138,6 +138,23 @@ Definition judge_acr_run (rr : bool) (raw : list N) (t : utree) (m : list (strin
     match audit_ok o with
     | Some msg => OOracle msg
     | None =>
+      (* the oracle first, from Go's output only: a property violation is reported as such even
+         when the model disagrees as well *)
+      let alpha := sset (map snd m) in
+      let ts := fun n => match lookup n m with
+                         | Some s => match index_of s alpha with Some i => [i] | None => [] end
+                         | None => [] end in
+      let orc : option string :=
+          if negb (String.eqb gerr "") then None
+          else match omap (fun n => match ucom n with
+                                    | [c] => dec_states alpha c
+                                    | _ => None end) (nodes g) with
+               | None => Some "a node does not carry exactly one comment made of known states"
+               | Some gsets => oracle_char rr (length alpha) ts t a gsteps gsets
+               end in
+      match orc with
+      | Some msg => OOracle msg
+      | None =>
       match (if rr then match parsimony_acr_r (list N) draw_raw t m a raw with
                         | Ok (r, rest) => match rest with
                                           | [] => Err "INTERNAL: recorded random stream too short"
@@ -156,22 +173,9 @@ Definition judge_acr_run (rr : bool) (raw : list N) (t : utree) (m : list (strin
         then OCorr ("node comments: model " ++ concat_with " ; " (map (concat_with "+") (acr_comments r))
                     ++ " implementation " ++ concat_with " ; " (map (fun n => concat_with "+" (ucom n)) (nodes g))) else
         if negb (map_eqb (acr_map r) gmap && map_eqb gmap (acr_map r))
-        then OCorr ("state map: model " ++ concat_with " ; " (map (fun p => fst p ++ "=" ++ snd p) (acr_map r))) else
-        (* oracle, from Go's output only *)
-        let alpha := sset (map snd m) in
-        let ts := fun n => match lookup n m with
-                           | Some s => match index_of s alpha with Some i => [i] | None => [] end
-                           | None => [] end in
-        match omap (fun n => match ucom n with
-                             | [c] => dec_states alpha c
-                             | _ => None end) (nodes g) with
-        | None => OOracle "a node does not carry exactly one comment made of known states"
-        | Some gsets =>
-          match oracle_char rr (length alpha) ts t a gsteps gsets with
-          | Some msg => OOracle msg
-          | None => OOk gsteps false
-          end
-        end
+        then OCorr ("state map: model " ++ concat_with " ; " (map (fun p => fst p ++ "=" ++ snd p) (acr_map r)))
+        else OOk gsteps false
+      end
       end
     end
   | _, _, _, _ => OBad "undecodable observation"
@@ -247,6 +251,80 @@ Fixpoint transpose {A} (n : nat) (rows : list (list A)) : list (list A) :=
 
 Definition last_com (n : utree) : string := last (ucom n) "".
 
+(** a site at which some tip of the tree holds a character outside the IUPAC table (X . ? and
+    the star): outside the property's quantifier, judged by correspondence only *)
+Definition site_in_scope (t : utree) (aln : list (string * string)) (j : nat) : bool :=
+  forallb (fun n => match lookup n aln with
+                    | Some s => match string_nth j s with
+                                | Some ch => match iupac (upper ch) with [] => false | _ => true end
+                                | None => true end
+                    | None => true end) (all_tip_names t).
+
+(** the oracle of the sequence variant, from Go's output only *)
+Definition asr_oracle (o : sexp) (t : utree) (aln : list (string * string)) (a : algo) (rr : bool)
+           (gsteps : list nat) (g : utree) : option string :=
+  let len := aln_length aln in
+  let per_node := map (fun n => parse_sites (last_com n) false []) (nodes g) in
+  if negb (forallb (fun l => Nat.eqb (length l) len) per_node)
+  then Some "a node's sequence does not have one entry per site" else
+  match omap (fun l => omap (fun cs => omap (fun ch => ascii_index ch nt_alphabet) cs) l) per_node with
+  | None => Some "a node's sequence contains an unknown character"
+  | Some sets_by_node =>
+    let by_site := transpose len sets_by_node in   (* site -> node -> states *)
+    if negb (Nat.leb len (length gsteps)) then Some "fewer step counts than sites" else
+    let site_res :=
+        map (fun p =>
+               let '(j, gsets, st) := p in
+               if negb (site_in_scope t aln j) then None else
+               let ts := fun n => match lookup n aln with
+                                  | Some s => match string_nth j s with Some ch => nt_set ch | None => [] end
+                                  | None => [] end in
+               match oracle_char rr 6 ts t a st gsets with
+               | Some msg => Some ("site " ++ string_of_nat j ++ ": " ++ msg)
+               | None => None
+               end)
+            (combine (combine (seq 0 len) by_site) gsteps) in
+    match first_some site_res with
+    | Some msg => Some msg
+    | None =>
+      (* site-by-site agreement with the character variant (both are Go's outputs) *)
+      match get "sites" o with
+      | None => None
+      | Some ss =>
+        match list_of ss with
+        | None => Some "INTERNAL: sites"
+        | Some sl =>
+          if negb (Nat.eqb (length sl) len) then Some "INTERNAL: one character run per site expected" else
+          first_some
+            (map (fun p =>
+                    let '(j, so, gsets, st) := p in
+                    match get_string "err" so, get_nat "steps" so, get_tree "tree" so with
+                    | Some cerr, Some csteps, Some cg =>
+                      if negb (String.eqb cerr "") then Some ("site " ++ string_of_nat j ++ ": character variant refuses") else
+                      if negb (Nat.eqb csteps st)
+                      then Some ("site " ++ string_of_nat j ++ ": sequence variant " ++ string_of_nat st
+                                 ++ " steps, character variant " ++ string_of_nat csteps)
+                      else
+                        let csets := map (fun n => match ucom n with
+                                                   | [cm] => omap (fun s => match s with
+                                                                            | String ch EmptyString => ascii_index ch nt_alphabet
+                                                                            | _ => None end)
+                                                                  (split_on "|"%char cm)
+                                                   | _ => None end) (nodes cg) in
+                        if Nat.eqb (length csets) (length gsets) &&
+                           forallb (fun q => match fst q with
+                                             | Some l => set_eqb l (snd q)
+                                             | None => false end) (combine csets gsets)
+                        then None
+                        else Some ("site " ++ string_of_nat j ++ ": states differ from the character variant")
+                    | _, _, _ => Some ("site " ++ string_of_nat j ++ ": character variant failed")
+                    end)
+                 (combine (combine (combine (seq 0 len) sl) by_site) gsteps))
+        end
+      end
+    end
+  end.
+
 Definition judge_asr (c o : sexp) : verdict :=
   match get_tree "tree" c, (x <- get "aln" c ;; dec_pairs x), (x <- get_string "algo" c ;; dec_algo x) with
   | Some t, Some aln, Some a =>
@@ -258,6 +336,10 @@ Definition judge_asr (c o : sexp) : verdict :=
         if negb (Nat.eqb galpha 1) then VBad "the alignment was not read as nucleotides" else
         let rr := match get_bool "rr" c with Some b => b | None => false end in
         let raw := match (x <- get "raw" o ;; dec_list dec_N x) with Some l => l | None => [] end in
+        (* the oracle first *)
+        match (if String.eqb gerr "" then asr_oracle o t aln a rr gsteps g else None) with
+        | Some msg => VOracle msg
+        | None =>
         match (if rr then match parsimony_asr_r (list N) draw_raw t aln a raw with
                           | Ok (r, rest) => match rest with
                                             | [] => Err "INTERNAL: recorded random stream too short"
@@ -275,72 +357,12 @@ Definition judge_asr (c o : sexp) : verdict :=
           if negb (list_eqb (list_eqb String.eqb) (map ucom (nodes g))
                             (map (fun p => (ucom (fst p) ++ [snd p])%list) (combine (nodes t) (asr_added r))))
           then VCorr ("node comments: model adds " ++ concat_with " ; " (asr_added r)
-                      ++ " implementation has " ++ concat_with " ; " (map (fun n => concat_with "+" (ucom n)) (nodes g))) else
-          (* oracle from Go's output *)
-          let len := aln_length aln in
-          let per_node := map (fun n => parse_sites (last_com n) false []) (nodes g) in
-          if negb (forallb (fun l => Nat.eqb (length l) len) per_node)
-          then VOracle "a node's sequence does not have one entry per site" else
-          match omap (fun l => omap (fun cs => omap (fun ch => ascii_index ch nt_alphabet) cs) l) per_node with
-          | None => VOracle "a node's sequence contains an unknown character"
-          | Some sets_by_node =>
-            let by_site := transpose len sets_by_node in   (* site -> node -> states *)
-            if negb (Nat.leb len (length gsteps)) then VOracle "fewer step counts than sites" else
-            let site_res :=
-                map (fun p =>
-                       let '(j, gsets, st) := p in
-                       let ts := fun n => match lookup n aln with
-                                          | Some s => match string_nth j s with Some ch => nt_set ch | None => [] end
-                                          | None => [] end in
-                       match oracle_char rr 6 ts t a st gsets with
-                       | Some msg => Some ("site " ++ string_of_nat j ++ ": " ++ msg)
-                       | None => None
-                       end)
-                    (combine (combine (seq 0 len) by_site) gsteps) in
-            match first_some site_res with
-            | Some msg => VOracle msg
-            | None =>
-              (* site-by-site agreement with the character variant (both are Go's outputs) *)
-              match get "sites" o with
-              | None => VOk (existsb (Nat.ltb 0) gsteps) (algo_name a ++ ":asr" ++ (if rr then ":rr" else ""))
-              | Some ss =>
-                match list_of ss with
-                | None => VBad "sites"
-                | Some sl =>
-                  if negb (Nat.eqb (length sl) len) then VBad "one character run per site expected" else
-                  let cmp :=
-                      map (fun p =>
-                             let '(j, so, gsets, st) := p in
-                             match get_string "err" so, get_nat "steps" so, get_tree "tree" so with
-                             | Some cerr, Some csteps, Some cg =>
-                               if negb (String.eqb cerr "") then Some ("site " ++ string_of_nat j ++ ": character variant refuses") else
-                               if negb (Nat.eqb csteps st)
-                               then Some ("site " ++ string_of_nat j ++ ": sequence variant " ++ string_of_nat st
-                                          ++ " steps, character variant " ++ string_of_nat csteps)
-                               else
-                                 let csets := map (fun n => match ucom n with
-                                                            | [cm] => omap (fun s => match s with
-                                                                                     | String ch EmptyString => ascii_index ch nt_alphabet
-                                                                                     | _ => None end)
-                                                                           (split_on "|"%char cm)
-                                                            | _ => None end) (nodes cg) in
-                                 if Nat.eqb (length csets) (length gsets) &&
-                                    forallb (fun q => match fst q with
-                                                      | Some l => set_eqb l (snd q)
-                                                      | None => false end) (combine csets gsets)
-                                 then None
-                                 else Some ("site " ++ string_of_nat j ++ ": states differ from the character variant")
-                             | _, _, _ => Some ("site " ++ string_of_nat j ++ ": character variant failed")
-                             end)
-                          (combine (combine (combine (seq 0 len) sl) by_site) gsteps) in
-                  match first_some cmp with
-                  | Some msg => VOracle msg
-                  | None => VOk (existsb (Nat.ltb 0) gsteps) (algo_name a ++ ":asr:sitewise")
-                  end
-                end
-              end
-            end
-          end
+                      ++ " implementation has " ++ concat_with " ; " (map (fun n => concat_with "+" (ucom n)) (nodes g)))
+          else VOk (existsb (Nat.ltb 0) gsteps)
+                   (algo_name a ++ ":asr" ++ (if rr then ":rr" else "")
+                    ++ (match get "sites" o with Some _ => ":sitewise" | None => "" end)
+                    ++ (if forallb (site_in_scope t aln) (seq 0 (aln_length aln)) then "" else ":unknownchars"))
+        end
         end
       end
     | _, _, _, _ => VBad "undecodable observation"
